@@ -5,6 +5,17 @@ from pathlib import Path
 VERIF = Path(__file__).resolve().parent.parent
 
 CLAIMED = {
+    "C01": dict(
+        text="Machine-checked translation correctness (C01_partial, ~2000 lines of Lean): for EVERY program of the decidable fragment InF (int/bool, + - *, unary minus, "
+             "comparisons, and/or/not, conditional expressions, assignment, augmented assignment, if/elif/else, while, for-range, break, serial write, sleep, prologue + "
+             "main loop) and EVERY N, if the transpiler model accepts, the C semantics of the emitted program produces exactly CPython's trace (or C int overflow, which is "
+             "UB); break in the main loop is always rejected; the full statement is refuted by machine-checked counterexamples (and/or value, range limit). The model is tied "
+             "three ways on generated programs: emitted TEXT = render(tr p) (T), Python semantics = CPython (S_py), C semantics = compiled sketch (S_c); the end-to-end "
+             "oracle CPython-vs-firmware runs on the fragment and on scripts with one construct outside it (helpers, tuples, lists, f-strings, floats, //, %, continue …).",
+        note="Trusted: Lean kernel (propext, Classical.choice, Quot.sound); the fragment is what is proved — helper functions, lists, strings, floats, promotion of names first "
+             "assigned below the top level are exercised only by the end-to-end oracle; C int is modelled unbounded with overflow as an explicit error at 32 bits (16-bit AVR "
+             "int is a stronger side condition); langgen printers, pyoracle (CPython + host modules), mock core + host g++. Known findings K01a–K01j.",
+        technique="Lean 4 compiler-correctness proof (simulation, induction on fuel/statements/N) + text, CPython and g++ correspondence ties + end-to-end oracle", ref="4/C01"),
     "C04": dict(
         text="Lean theorems relating the emitted actuator blocks (Fw) to the host classes (Host): clamping of every PWM duty / servo command / motor speed for ARBITRARY "
              "arguments and states; for every call the host accepts, equal shadow state (so all eight state queries agree), last pin level = image of the host state, "
@@ -15,6 +26,15 @@ CLAIMED = {
              "theorems (float32/float64 rounding via the bit-exact tie and a 1e-4 getter tolerance). Known findings K04a (fade half rounding), K04b (tiny motor speed), "
              "K04c (fractional servo pulse bounds folded with int()).",
         technique="Lean 4 refinement theorems Fw vs Host + bit-exact model/compiled-firmware correspondence (S_c) + timeline oracle", ref="4/C04"),
+    "C08": dict(
+        text="One Lean obligation per constructor/method/Core helper (44 callables) over tables REGENERATED from the source on every run — the host signature "
+             "(inspect.signature) and the transpiler's behaviour on every call shape (rejects? which provided values fail to reach the generated code?) — checked by "
+             "decide +kernel: every shape Python accepts is rejected or binds every provided parameter; generic theorems lift this to every keyword order and show the "
+             "enumerated shapes are complete. The oracle compiles every positional/keyword split, several keyword orders and every subset of omitted defaults and requires "
+             "byte-identical C++ within each equivalence class, plus 'an explicit 0 is not an omission'.",
+        note="Trusted: Lean kernel (no axioms for the table obligations); the regenerating translator (extract.probe_bindings/bindprobe: sample values, value-variation as "
+             "'reaches the code'); slot correctness rests on the byte-equality oracle. Known finding K08a (RGBLed.on ignores keywords).",
+        technique="Lean 4 theorems re-checked on tables regenerated from the source (decide +kernel) + exhaustive call-shape oracle", ref="4/C08"),
     "C09": dict(
         text="Lean theorems over a heap model of the emitted list helpers and usage forms: in the owned discipline (lists declared once from a maker, then append / "
              "remove / in-bounds indexing incl. negative / len / assignment from another declared list) no history produces a memory error, every live block is owned by "
